@@ -188,6 +188,35 @@ def main():
                     ck.violation("the library API returns other bytes for %s than the command line writes" % fn,
                                  dict(rep, file=fn, api=unb64(ff["api_out"]).decode("utf-8", "replace"), written=written[fn].decode("utf-8", "replace")))
         # the same files one at a time give the same bytes
+    # ---------------- (1c) targets with a very long line (longer than bufio.MaxScanTokenSize): the three modes, run directly
+    import shutil
+    for width in (60000, 70000, 140000):
+        src = b"package p\n\nfunc a() {\n\tfoo(1)\n}\n\nvar s = \"" + b"x" * width + b"\"\n"
+        d = vlib.scratch("c12long")
+        try:
+            outs = {}
+            for mode, fl in (("write", []), ("print", ["--print-only"]), ("diff", ["-d"])):
+                open(os.path.join(d, "a.go"), "wb").write(src)
+                open(os.path.join(d, "p.patch"), "wb").write(b"@@\nvar x expression\n@@\n-foo(x)\n+bar(x)\n")
+                rc, so, se = vlib.run_gopatch(["-p", "p.patch"] + fl + ["a.go"], d)
+                outs[mode] = (rc, so, se, open(os.path.join(d, "a.go"), "rb").read())
+            ck.count(("long-line", width), nontrivial=True); ck.tally("kind", "long line (%d bytes)" % width)
+            rep = {"case": "long line of %d bytes" % width, "patch": "@@\nvar x expression\n@@\n-foo(x)\n+bar(x)\n", "file": "package p; func a() { foo(1) }; var s = \"x...(%d)\"" % width,
+                   "exit": {m: o[0] for m, o in outs.items()}, "stderr_diff": outs["diff"][2].decode("utf-8", "replace")[:300]}
+            if outs["write"][0] != 0 or outs["print"][0] != 0 or outs["write"][3] != outs["print"][1]:
+                ck.violation("a target with a %d-byte line: in-place and --print-only fail or disagree" % width, rep)
+            elif outs["diff"][0] != 0:
+                ck.violation("a target with a %d-byte line: --diff fails (%s) where the other modes succeed" % (width, outs["diff"][2].decode("utf-8", "replace").strip()[:80]), rep,
+                             finding_class="long-line-diff" if b"token too long" in outs["diff"][2] else None)
+            else:
+                try:
+                    applied = udiff.apply({b"a.go": src}, outs["diff"][1]).get(b"a.go", src)
+                    if applied != outs["write"][3]:
+                        ck.violation("a target with a %d-byte line: the diff does not reproduce the bytes written in place" % width, rep)
+                except udiff.DiffError as e:
+                    ck.violation("a target with a %d-byte line: the --diff output does not apply: %s" % (width, e), rep)
+        finally:
+            shutil.rmtree(d, ignore_errors=True)
     # mode agreement
     n_agree = 0
     for (cname, fn, si), d in sorted(agree.items()):
